@@ -11,6 +11,7 @@ Inductive cop :=
 | CDefault (key : Z) | CCtrlNum (key : Z) | CNumlock (key : Z)
 | CSetKBType (n : Z) | CSetSelKey (keys : list Z)
 | CCandChoose (i : Z) | CCandOpen | CCandClose
+| CCandList (which : N)       (* chewing_cand_list_first (0) / last (1) / next (2) / prev (3) *)
 | CCommitPreedit | CCleanPreedit | CCleanBopomofo | CReset
 | CConfigSetInt (name : string) (value : Z)     (* chewing_config_set_int, any name, any int *)
 | CUserAdd (phrase bopomofo : list N)            (* chewing_userphrase_add, any two strings *)
@@ -31,6 +32,7 @@ Definition cstep (conv : conv_fn memdict) (c : cctx) (o : cop) : outcome cctx :=
   | CCandChoose i => drop_rc (cand_choose conv c i)
   | CCandOpen => drop_rc (cand_open c)
   | CCandClose => Ok (fst (cand_close c))
+  | CCandList w => drop_rc (cand_list w c)
   | CCommitPreedit => drop_rc (commit_preedit conv c)
   | CCleanPreedit => Ok (fst (clean_preedit c))
   | CCleanBopomofo => Ok (fst (clean_bopomofo c))
